@@ -724,7 +724,7 @@ func (s *scanner) readInlineImage() (Operator, error) {
 		}
 	}
 
-	var imageData []byte
+	imageData := []byte{} // not nil: empty data is an empty String
 
 	if length > 0 {
 		// PDF 2.0: use Length key for efficient reading
@@ -846,7 +846,7 @@ func (s *scanner) ReadComment() ([]byte, error) {
 
 // Reads a PDF string (not including the leading parenthesis).
 func (s *scanner) ReadString() (pdf.String, error) {
-	var res []byte
+	res := []byte{} // not nil: pdf.Equal tells a nil String from an empty one
 	bracketLevel := 1
 	ignoreLF := false
 	for {
@@ -923,7 +923,7 @@ func (s *scanner) ReadString() (pdf.String, error) {
 }
 
 func (s *scanner) ReadHexString() (pdf.String, error) {
-	var res []byte
+	res := []byte{} // not nil: pdf.Equal tells a nil String from an empty one
 	first := true
 	var hi byte
 readLoop:
